@@ -270,6 +270,10 @@ type World struct {
 	model            *Model
 	closed           bool
 	chanProbes       atomic.Int64
+	// handlerYield > 0: the operator's permission handler takes a moment (it yields the processor
+	// that many times): set while a request is sent at the very instant something expires, so that
+	// the expiry gets its chance between the handler's look-up of the allocation and its use
+	handlerYield atomic.Int64
 	// callback bookkeeping
 	cbActive int
 	trace    []string
@@ -399,6 +403,8 @@ func NewWorld(cfg Config, verbose bool) (*World, error) {
 			PacketConn:            s,
 			RelayAddressGenerator: w.gen,
 			PermissionHandler: func(clientAddr net.Addr, peerIP net.IP) bool {
+				w.yieldInHandler()
+
 				return !w.deniedCommon(time.Now(), w.clientIndex(clientAddr), peerIP)
 			},
 		}},
@@ -467,6 +473,8 @@ func NewWorld(cfg Config, verbose bool) (*World, error) {
 			RelayAddressGenerator: w.gen,
 			PermissionHandler: func(clientAddr net.Addr, peerIP net.IP) bool {
 				// this listener's own policy on top of the common one
+				w.yieldInHandler()
+
 				return !w.deniedOnStream(peerIP) && !w.deniedCommon(time.Now(), w.clientIndex(clientAddr), peerIP)
 			},
 		}}
@@ -641,6 +649,12 @@ func (w *World) probeChanDeleted(relay, peer net.Addr) {
 
 			return
 		}
+	}
+}
+
+func (w *World) yieldInHandler() {
+	for i := int64(0); i < w.handlerYield.Load(); i++ {
+		runtime.Gosched()
 	}
 }
 
